@@ -161,6 +161,7 @@ T(wcscmp_s) { OUTI; r->rc = _wcscmp_s_chk(DP(c), SZ(c->dmax, WSTRMAX), SP(c), SZ
 T(wcsicmp_s) { OUTI; r->rc = _wcsicmp_s_chk(DP(c), SZ(c->dmax, WSTRMAX), SP(c), SZ(c->slen, WSTRMAX), op, B(c->dbos, 4), B(c->sbos, 4)); FINI; }
 T(wcsnatcmp_s) { OUTI; r->rc = _wcsnatcmp_s_chk(DP(c), SZ(c->dmax, WSTRMAX), SP(c), SZ(c->slen, WSTRMAX), 0, op, B(c->dbos, 4), B(c->sbos, 4)); FINI; }
 T(wcsnaticmp_s) { OUTI; r->rc = _wcsnatcmp_s_chk(DP(c), SZ(c->dmax, WSTRMAX), SP(c), SZ(c->slen, WSTRMAX), 1, op, B(c->dbos, 4), B(c->sbos, 4)); FINI; }
+T(wcscoll_s) { OUTI; r->rc = _wcscoll_s_chk(DP(c), SZ(c->dmax, WSTRMAX), SP(c), SZ(c->slen, WSTRMAX), op, B(c->dbos, 4), B(c->sbos, 4)); FINI; }
 T(wcsncmp_s) { OUTI; r->rc = _wcsncmp_s_chk(DP(c), SZ(c->dmax, WSTRMAX), SP(c), SZ(c->slen, WSTRMAX), SZ(c->n, WSTRMAX), op, B(c->dbos, 4), B(c->sbos, 4)); FINI; }
 T(wcsstr_s) { wchar_t *o = (wchar_t *)h_untouched; wchar_t **op = (c->flags & 1) ? NULL : &o;
     r->rc = _wcsstr_s_chk(DP(c), SZ(c->dmax, WSTRMAX), SP(c), SZ(c->slen, WSTRMAX), op, B(c->dbos, 4), B(c->sbos, 4)); FINP; }
@@ -185,7 +186,7 @@ static const struct { const char *name; thunk_t fn; } TAB[] = {
     E(strisalphanumeric_s), E(strisascii_s), E(strisdigit_s), E(strishex_s), E(strislowercase_s),
     E(strismixedcase_s), E(strispassword_s), E(strisuppercase_s),
     E(memchr_s), E(memrchr_s), E(memcmp_s), E(memcmp16_s), E(memcmp32_s), E(wmemcmp_s),
-    E(wcscmp_s), E(wcsicmp_s), E(wcsnatcmp_s), E(wcsnaticmp_s), E(wcsncmp_s), E(wcsstr_s), E(timingsafe_bcmp), E(timingsafe_memcmp),
+    E(wcscmp_s), E(wcscoll_s), E(wcsicmp_s), E(wcsnatcmp_s), E(wcsnaticmp_s), E(wcsncmp_s), E(wcsstr_s), E(timingsafe_bcmp), E(timingsafe_memcmp),
 };
 
 static thunk_t lookup(const char *n) {
